@@ -194,9 +194,9 @@ REGISTRY = {
                     "both directions; every structure-direction schedule is run twice, with the working set as in the source and with it rebound to a "
                     "shared object (what-if), and compared with the model under the matching scope; plus free-running stress rounds (12 threads x 2 "
                     "object graphs on one fresh converter) against a sequential reference; non-trivial = schedule of >= 3 steps"},
-    "C14": {"props_file": "Props/C14.v", "files": ["Model/Base.v", "Model/Disambig.v", "Model/Subclasses.v", "Gen/DisSrc.v", "Proofs/DisambigProofs.v",
+    "C14": {"props_file": "Props/C14.v", "files": ["Model/Base.v", "Model/Disambig.v", "Model/Subclasses.v", "Model/Tagged.v", "Model/SubUnion.v", "Gen/DisSrc.v", "Gen/SubSrc.v", "Proofs/DisambigProofs.v", "Proofs/TaggedProofs.v", "Proofs/SubUnionProofs.v",
                                                    "Proofs/SubclassesProofs.v", "Props/C14.v"],
-            "run": _c14, "t1_sections": ["disambig"],
+            "run": _c14, "t1_sections": ["disambig", "subclasses"],
             "rule": "random class trees of 2-7 attrs classes (depth <= 3, own attributes 0-2 drawn from 8 names, required or defaulted, field-less "
                     "subclasses included), forbid_extra_keys and validation mode random, 25% with an explicit shuffled subclasses tuple; both the "
                     "automatic variant and the tagged-union strategy; every (K, x) pair with x an instance of K or a descendant; non-trivial = tree of "
